@@ -24,7 +24,8 @@ PROPS = {
         title="Upcasting applies the whole chain or nothing",
         theorems="Properties/C17.v",
         proof_files=["Upcast/UpcastModel.v", "Upcast/UpcastProofs.v", "Properties/C17.v"],
-        suites=[dict(name="upcast", mod="core", family="upcast", corr="Corr.CorrUpcast", check="check17")],
+        suites=[dict(name="upcast", mod="core", family="upcast", corr="Corr.CorrUpcast", check="check17"),
+                dict(name="upcasttyped", mod="core", family="upcasttyped", corr="Corr.CorrUpcast", check="check17t")],
         level_text="Proved in Coq for every acyclic registry, payload and function behaviour honouring its declared target: "
                    "apply equals the deterministic chain of first-registered upcasters; events without upcasters are "
                    "untouched; on a failed step the callback gets the original event with one error report; offset and "
@@ -35,6 +36,51 @@ PROPS = {
         rule="same generator as C16; non-trivial = an event was actually upcast or a step failed; distinct = distinct input term",
     ),
 }
+
+PROPS["C18"] = dict(
+    title="Materialized state is the fold of the message log",
+    theorems="Properties/C18.v",
+    proof_files=["State/StateModel.v", "State/StateProofs.v", "Properties/C18.v"],
+    suites=[dict(name="state", mod="core", family="state", corr="Corr.CorrState", check="check18"),
+            dict(name="statector", mod="core", family="statector", corr="Corr.CorrState", check="check18")],
+    level_text="Proved in Coq for every message sequence, every decode outcome, strict and non-strict mode: one Apply "
+               "refines one step of the last-writer-wins specification; after any sequence each registered collection "
+               "holds exactly the fold and no key of another type (composite keys are injective per collection, so "
+               "keys containing the separator cannot collide); LastOffset is the position of the last event whose "
+               "Apply returned nil; two replay sessions (second resumed from LastOffset) equal one session for every "
+               "split point, also when an event is rejected. Tied to state/materializer.go by differential runs "
+               "(direct Apply, Materializer.Replay through bus and store in one and in two sessions).",
+    level_note="Trusted: Coq kernel + vm_compute; the hand-written model of Materializer.Apply over decoded documents "
+               "(encoding/json is not modelled: the harness renders each abstract document to bytes); Go maps as "
+               "association lists; harness and printer.",
+    rule="cases = seeded random logs (3-25 messages, thorough up to 52) of insert/update/delete/reset/snapshot/other-"
+         "operation/undecodable documents over 1-3 registered collections (names incl. 'a' and 'a/b'), an unregistered "
+         "type, keys containing '/', strict and non-strict, a random split point; plus logs built by the helper "
+         "constructors and published through a bus and store; non-trivial = the log contains a reset, a delete, a "
+         "rejected event or a key with the separator; distinct = distinct input term",
+)
+PROPS["C19"] = dict(
+    title="State messages survive the round trip; bad input is rejected without damage",
+    theorems="Properties/C19.v",
+    proof_files=["State/StateModel.v", "State/StateProofs.v", "Properties/C19.v"],
+    suites=[dict(name="statector", mod="core", family="statector", corr="Corr.CorrState", check="check19"),
+            dict(name="state", mod="core", family="state", corr="Corr.CorrState", check="check19"),
+            dict(name="statefuzz", mod="core", family="statefuzz", corr="Corr.CorrState", check="checkfuzz", shard=1000)],
+    level_text="Partial proof. Proved in Coq for every state and every decode outcome of the event bytes: an Apply that "
+               "returns an error leaves every collection and LastOffset unchanged, and a decoded change message updates "
+               "exactly its key of its collection. The round trip through the helper constructors, Publish, the store, "
+               "Replay and encoding/json is checked differentially (entities with nested/unicode/empty/numeric-edge "
+               "values, unicode keys, all option combinations, protocol field names). NOT proved: that decoding "
+               "arbitrary bytes never panics (a fact about encoding/json and the Go runtime, which no Gallina model "
+               "exhibits) - sampled by a byte-level fuzz stream with recover.",
+    level_note="Trusted: Coq kernel + vm_compute; model of Apply over decoded documents; encoding/json unmodelled "
+               "(round trip and no-panic are sampled only); harness and printer.",
+    rule="cases = (a) logs built with state.Insert/Update/UpdateWithOldValue/Delete/DeleteWithOldValue/Reset/Snapshot* "
+         "and all ChangeOption combinations, published by value and by pointer through a persistent bus; (b) raw JSON "
+         "documents incl. malformed ones; (c) fuzzed byte strings (truncations, byte flips, deep nesting, huge numbers, "
+         "invalid UTF-8, random bytes) applied to a non-empty materializer; non-trivial = a rejected/errored input or a "
+         "log with reset/delete/separator keys; distinct = distinct input term (fuzz: distinct observation)",
+)
 
 NOT_CLAIMED = {p: "check not built yet in this session (work in progress; planned per DESIGN.md section 6)" for p in
                ["C%02d" % i for i in range(1, 21)]}
